@@ -35,6 +35,10 @@ func c03(c *Ctx) {
 	sLockDiscipline(c, "R11/S-LOCK", "raftState", "commitment")
 	sAtomicOnly(c, "R11/S-ATOMIC")
 	sStoreWriters(c, "R12/S-WRITERS")
+	// a follower that is AHEAD of what the leader can read must not be sent a
+	// snapshot (it would wipe acknowledged entries on a monotonic store): the
+	// snapshot fallback is taken only for ErrLogNotFound (round-7 seed C03-N)
+	c12R1(c, "R13/C12.R1")
 }
 
 // truncationTracks are the per-iteration tracks of appendEntries' entry loop.
